@@ -84,8 +84,25 @@ def check_next(ctx, inst="C12.next"):
         def wall_cmp(e):
             return e.k == "bin" and e.extra == "Lt" and e.a[1].k == "arg" and e.a[1].extra[0] == 3
         sws = A.pred_switches(b, wall_cmp)
-        ctx.check(len(sws) == 1, inst, "PIN", b.path, "the candidate is chosen by the strict test `wall > last`", None)
-        R.guard(ctx, inst, b, sa, A.pred_edges(b, wall_cmp, "false"), "last + 1 is used exactly when the wall clock is not ahead")
+        # the same candidate written without a branch: `wall.max(last.saturating_add(1))` (equal for every u64: wall > last gives
+        # wall >= last + 1, otherwise last + 1 > wall, and at u64::MAX both forms yield u64::MAX)
+        mx = [n.id for n in b.calls() if R.call_matches(n.ev, "Ord::max") or R.call_matches(n.ev, "cmp::max") or R.call_matches(n.ev, "u64::max")]
+        as_max = False
+        if not sws and len(mx) == 1 and sa:
+            a0, a1 = R.arg_expr(b, b.nodes[mx[0]], 0), R.arg_expr(b, b.nodes[mx[0]], 1)
+            def is_wall(e):
+                return e.k == "arg" and e.extra[0] == 3
+            def is_bump(e):
+                return e.k == "call" and e.nid in sa
+            as_max = (is_wall(a0) and is_bump(a1)) or (is_wall(a1) and is_bump(a0))
+            if as_max and cas:
+                newv = R.arg_expr(b, b.nodes[cas[0]], 2)
+                as_max = newv.k == "call" and newv.nid == mx[0]
+        if as_max:
+            ctx.ok(inst, "PIN", b.path, "the candidate is max(wall, last + 1), the value handed to the compare-exchange", b.where(mx[0]))
+        else:
+            ctx.check(len(sws) == 1, inst, "PIN", b.path, "the candidate is chosen by the strict test `wall > last`", None)
+            R.guard(ctx, inst, b, sa, A.pred_edges(b, wall_cmp, "false"), "last + 1 is used exactly when the wall clock is not ahead")
         if sa:
             ev = b.nodes[sa[0]].ev
             one = ev["args"][1]
